@@ -40,6 +40,13 @@ def gen_cases(tier, seed):
         if sim == 'Gillespie_simple_contagion' and r.random() < 0.25:
             ks = len(c['spec']['statuses'])
             c['return_idx'] = sorted(r.sample(range(ks), r.randint(1, ks)))
+        if sim == 'Gillespie_complex_contagion' and (k // len(simreg.ALL_SIMS)) % 2 == 0:
+            # a user model whose transition_choice sometimes answers with the node's current status: the null event is an event of the run in
+            # both descriptions (a row of the arrays, a time point of the summary)
+            c['cmodel'] = 'lazy'
+            c['IC'] = [c['IC'][i] if i else 1 for i in range(len(c['IC']))]
+            if c.get('tmax') == 'inf':
+                c['tmax'] = c['tmin'] + 4
         out.append(c)
     return out
 
@@ -115,6 +122,12 @@ def run_case(case):
                         break
         if bad:
             viol(res, '%s|summary_equals_arrays' % sim, bad)
+        elif sim not in simreg.DISCRETE:
+            # continuous time: both descriptions list the same event times (rows at one instant merged) - an event that changes no count
+            # (a null event of a user model, a change between two unreported statuses) is still a row of both
+            bump(res, 'time_grids_compared')
+            if [float(x) for x in st_t] != [float(x) for x in T]:
+                viol(res, '%s|summary_time_points_equal_arrays' % sim, {'summary_len': len(st_t), 'arrays_len': len(T), 'summary_t': st_t[:6], 'arrays_t': T[:6]})
     # ---- P2 accessors
     try:
         acc_ok = list(full.t()) == st_t
